@@ -8,6 +8,7 @@ import GeoProofs.Lemmas.RelateSpecLemmas
 import GeoProofs.Lemmas.RelateSpecLocate
 import GeoProofs.Lemmas.RelateSpecBBox
 import GeoProofs.Lemmas.RelateSpecSwap
+import GeoProofs.Lemmas.RelateSpecDisjoint
 import Mathlib.Tactic.NormNum
 
 namespace Geo.Proofs.C01
@@ -386,5 +387,37 @@ example : locateParts ⟨[], [], [⟨[⟨0, 0⟩, ⟨2, 0⟩, ⟨0, 2⟩, ⟨0, 
   intro c hc
   simp [Spec.allCoords, Poly.rings] at hc
   rcases hc with rfl | rfl | rfl | rfl <;> norm_num
+
+/-- [T] every atom of operands whose coordinate bounding boxes are strictly separated along an axis
+is exterior to one of the operands. -/
+theorem atom_outside_of_sep {pa pb : Parts} (h : Spec.Sep pa pb) (ca : Spec.ClosedExt pa) (cb : Spec.ClosedExt pb)
+    {x : Atom} (hx : x ∈ Spec.atomsOf pa pb) : x.posA = .outside ∨ x.posB = .outside :=
+  Spec.atom_outside_of_sep h ca cb hx
+
+/-- [T] **disjoint-envelope shortcut, matrix form**: for operands with strictly separated bounding
+boxes (exterior rings closed) the specification's matrix has `F` in II, IB, BI, BB — the shape
+`FF*FF****` that `compute_disjoint` emits. -/
+theorem relateParts_sep {pa pb : Parts} (h : Spec.Sep pa pb) (ca : Spec.ClosedExt pa) (cb : Spec.ClosedExt pb)
+    (x y : Pos) (hx : x ≠ .outside) (hy : y ≠ .outside) : (relateParts pa pb).get x y = .empty :=
+  Spec.relateParts_sep h ca cb x y hx hy
+
+/-- [T] the shortcut's own matrix has that shape. -/
+theorem computeDisjoint_shape (da ba db bb : Dim) (x y : Pos) (hx : x ≠ .outside) (hy : y ≠ .outside) :
+    (computeDisjoint da ba db bb).get x y = .empty := by
+  cases da <;> cases ba <;> cases db <;> cases bb <;> cases x <;> cases y <;> first | rfl | contradiction
+
+/-- a segment left of a triangle -/
+example : (relateParts ⟨[], [[⟨0, 0⟩, ⟨1, 1⟩]], []⟩ ⟨[], [], [⟨[⟨5, 0⟩, ⟨7, 0⟩, ⟨5, 2⟩, ⟨5, 0⟩], []⟩]⟩).get
+    .inside .onBoundary = .empty := by
+  apply relateParts_sep _ _ _ _ _ (by decide) (by decide)
+  · left
+    intro a ha b hb
+    simp [Spec.allCoords, Poly.rings] at ha hb
+    rcases ha with rfl | rfl <;> rcases hb with rfl | rfl | rfl | rfl <;> norm_num
+  · intro q hq; simp at hq
+  · intro q hq
+    simp at hq
+    subst hq
+    rfl
 
 end Geo.Proofs.C01
